@@ -108,6 +108,8 @@ func (m *gm) apply(f []string) bool {
 			return false
 		}
 		m.busy = 0
+	case "list":
+		return m.busy == 0
 	case "conn":
 		m.conn[at(1)] = f[2] == "1"
 	case "notify":
@@ -231,6 +233,8 @@ func gen(r *vh.Rand, tier string, n int, emit func(vh.Case)) {
 					w = []int{0, 12, 40, 40, 40}[k]
 				}
 				switch {
+				case w < 1:
+					op = "list"
 				case w < 7:
 					op = fmt.Sprintf("add %d", p)
 				case w < 10:
